@@ -943,3 +943,41 @@ def emit_getitem_form(f) -> str:
     return ("From Coq Require Import Bool.\nFrom ND Require Import Ndx.GetItemForm.\n(* GENERATED from ndonnx/_opset_extensions.py getitem *)\n"
             f"Definition gen_getitem_form : gform := {{| gf_slices_over := {f['slices_over']}; gf_ints_over := {f['ints_over']}; "
             f"gf_gather_reversed := {b(f['reversed'])}; gf_new_axes_over_filtered := {b(f['new_over_filtered'])} |}}.\n")
+
+
+# ------------------------------------------------------------------ flip (C11) ---
+def flip_form():
+    """UniformShapeOperations.flip as a form: rank-0 shortcut, which axis arguments are normalised, which slice the member
+    axes get.  Everything else must read as transcribed.  Fail-closed."""
+    text, mod = src("ndonnx/_core/_shapeimpl.py")
+    cls = [n for n in mod.body if isinstance(n, ast.ClassDef) and n.name == "UniformShapeOperations"]
+    fns = [m for m in (cls[0].body if cls else []) if isinstance(m, ast.FunctionDef) and m.name == "flip"]
+    if len(fns) != 1 or [a.arg for a in fns[0].args.args] != ["self", "x", "axis"]:
+        raise Untranslatable("flip: not found / signature")
+    u = [ast.unparse(s) for s in fns[0].body if not (isinstance(s, ast.Expr) and isinstance(s.value, ast.Constant))]
+    rank0 = False
+    if u and u[0] == "if x.ndim == 0:\n    return x.copy()":
+        rank0, u = True, u[1:]
+    NORM = "axis = [x.ndim + ax if ax < 0 else ax for ax in axis]"
+    BRANCH = "if axis is None:\n    axis = range(x.ndim)\nelif not isinstance(axis, Iterable):\n    axis = [axis]"
+    BRANCH_S = "if axis is None:\n    axis = range(x.ndim)\nelif not isinstance(axis, Iterable):\n    axis = [x.ndim + axis if axis < 0 else axis]"
+    if len(u) == 4 and u[0] == BRANCH and u[1] == NORM:
+        norm, rest = "NormAll", u[2:]
+    elif len(u) == 3 and u[0] == BRANCH_S:
+        norm, rest = "NormScalarOnly", u[1:]
+    elif len(u) == 3 and u[0] == BRANCH:
+        norm, rest = "NormNever", u[1:]
+    else:
+        raise Untranslatable("flip: axis handling: " + " | ".join(x[:60] for x in u))
+    idx = {"index = tuple((slice(None, None, None) if i not in axis else slice(None, None, -1) for i in range(0, x.ndim)))": True,
+           "index = tuple((slice(None, None, -1) if i in axis else slice(None, None, None) for i in range(0, x.ndim)))": True,
+           "index = tuple((slice(None, None, -1) if i not in axis else slice(None, None, None) for i in range(0, x.ndim)))": False}.get(rest[0])
+    if idx is None or rest[1] != "return x[index]":
+        raise Untranslatable("flip: index construction: " + rest[0][:120])
+    return {"rank0": rank0, "norm": norm, "member_reversed": idx}
+
+
+def emit_flip_form(f) -> str:
+    b = lambda x: "true" if x else "false"
+    return ("From Coq Require Import Bool.\nFrom ND Require Import Ndx.FlipForm.\n(* GENERATED from ndonnx/_core/_shapeimpl.py flip *)\n"
+            f"Definition gen_flip_form : fform := {{| ff_rank0_copies := {b(f['rank0'])}; ff_norm := {f['norm']}; ff_member_reversed := {b(f['member_reversed'])} |}}.\n")
